@@ -946,7 +946,84 @@ end Slicec.Gen
     return text, len(conj) + len(rows) + len(arms) + 1 + len(actions)
 
 
+# C03: add this function to translator/extract.py (before `TABLES = {`) and the entry
+#     "ResolveKinds": gen_resolve_kinds,
+# to TABLES. It uses the helpers already in extract.py (read, block_after, fn_body, ExtractionError, re).
+
+def gen_resolve_kinds(repo):
+    """C03: which AST node variants convert to `WeakPtr<dyn Type>`, the primitive keys `Ast::create` installs,
+    the element type each kind of patch requires, and the codes of the three resolution errors"""
+    T = "ResolveKinds"
+    rel = "slicec/src/ast/node.rs"
+    src = read(repo, rel, T)
+    m = re.search(r"impl<'a>\s*TryFrom<&'a\s+Node>\s*for\s*WeakPtr<dyn\s+Type>", src)
+    if not m:
+        raise ExtractionError(T, rel, "TryFrom<&Node> for WeakPtr<dyn Type> not found")
+    body = block_after(src, m.end())
+    if body is None:
+        raise ExtractionError(T, rel, "impl block not found")
+    type_variants = re.findall(r"Node::(\w+)\(\w+\)\s*=>\s*Ok\(", body)
+    if not type_variants or not re.search(r"_\s*=>\s*Err\(LookupError::TypeMismatch", body):
+        raise ExtractionError(T, rel, "match arms of the dyn Type conversion not understood")
+    mm = re.search(r"generate_node_enum!\s*\{([^}]*)\}", src)
+    if not mm:
+        raise ExtractionError(T, rel, "generate_node_enum! invocation not found")
+    all_variants = [v.strip() for v in mm.group(1).split(",") if v.strip()]
+
+    rel2 = "slicec/src/ast/mod.rs"
+    src2 = read(repo, rel2, T)
+    cbody = fn_body(src2, "create", T, rel2)
+    keys = re.findall(r'\(\s*"(\w+)"\.to_owned\(\)\s*,\s*(\d+)\s*\)', cbody)
+    elems = re.findall(r"Node::Primitive\(OwnedPtr::new\(Primitive::(\w+)\)\)", cbody)
+    if not keys or len(keys) != len(elems) or sorted(int(i) for _, i in keys) != list(range(len(keys))):
+        raise ExtractionError(T, rel2, "primitive entries of Ast::create not understood")
+    prim_keys = [k for k, _ in sorted(keys, key=lambda x: int(x[1]))]
+    for k, e in zip(prim_keys, elems):
+        if k.lower() != e.lower():
+            raise ExtractionError(T, rel2, f"lookup key `{k}` does not index Primitive::{e}")
+
+    rel3 = "slicec/src/patchers/type_ref_patcher.rs"
+    src3 = read(repo, rel3, T)
+    m3 = re.search(r"enum\s+PatchKind\b", src3)
+    if not m3:
+        raise ExtractionError(T, rel3, "enum PatchKind not found")
+    pbody = block_after(src3, m3.end())
+    wants = re.findall(r"(\w+)\(\s*(?:Vec<|Option<)?\s*Patch<([^>]+)>", pbody or "")
+    if len(wants) < 5:
+        raise ExtractionError(T, rel3, "PatchKind variants not understood")
+    rbody = fn_body(src3, "resolve_definition", T, rel3)
+    if not re.search(r"find_node_with_scope\(\s*&identifier\.value\s*,\s*type_ref\.module_scope\(\)\s*\)", rbody):
+        raise ExtractionError(T, rel3, "resolve_definition no longer looks the identifier up in the reference's module scope")
+
+    rel4 = "slicec/src/diagnostics/errors.rs"
+    src4 = read(repo, rel4, T)
+    codes = dict((name, code) for code, name in re.findall(r'"(E\d+)"\s*,\s*(\w+)\s*,', src4))
+    for need in ("DoesNotExist", "TypeMismatch", "SelfReferentialTypeAliasNeedsConcreteType"):
+        if need not in codes:
+            raise ExtractionError(T, rel4, f"code of Error::{need} not found")
+
+    def q(x):
+        return '"' + x + '"'
+    text = f"""-- GENERATED by translator/extract.py from slicec/src/ast/node.rs, ast/mod.rs, patchers/type_ref_patcher.rs, diagnostics/errors.rs — do not edit.
+namespace Slicec.Gen
+/-- variants of `Node` (generate_node_enum!) -/
+def nodeVariants : List String := [{", ".join(q(x) for x in all_variants)}]
+/-- variants of `Node` that `TryFrom<&Node> for WeakPtr<dyn Type>` accepts -/
+def typeNodeVariants : List String := [{", ".join(q(x) for x in type_variants)}]
+/-- keys of the primitives installed by `Ast::create`, in index order -/
+def astPrimitiveKeys : List String := [{", ".join(q(x) for x in prim_keys)}]
+/-- `PatchKind` variants with the element type their patch requires -/
+def patchWants : List (String × String) := [{", ".join("(" + q(a) + ", " + q(b.strip()) + ")" for a, b in wants)}]
+def codeDoesNotExist : String := {q(codes["DoesNotExist"])}
+def codeTypeMismatch : String := {q(codes["TypeMismatch"])}
+def codeSelfReferentialAlias : String := {q(codes["SelfReferentialTypeAliasNeedsConcreteType"])}
+end Slicec.Gen
+"""
+    return text, len(all_variants) + len(type_variants) + len(prim_keys) + len(wants) + 3
+
+
 TABLES = {
+    "ResolveKinds": gen_resolve_kinds,
     "DriverShape": gen_driver_shape,
     "Preproc": gen_preproc_tables,
     "EmitFormat": gen_emit_format,
